@@ -211,6 +211,17 @@ fn main() {
                     .collect();
                 cases.push((r, ins));
             }
+            // many inputs in one packet: around the sender's pending-output limit (128) and around the
+            // decoder's limit (256 inputs; more must be rejected)
+            for cnt_in in [100usize, 127, 128, 129, 200, 255, 256, 257, 300] {
+                for len in [0usize, 1, 2] {
+                    let r: Vec<u8> = (0..len).map(|j| (j * 7) as u8).collect();
+                    let ins: Vec<Vec<u8>> = (0..cnt_in)
+                        .map(|i| (0..len).map(|j| ((i + j) % 3) as u8 * 127).collect())
+                        .collect();
+                    cases.push((r, ins));
+                }
+            }
             for (r, ins) in cases {
                 n += 1;
                 let enc = catch_unwind(AssertUnwindSafe(|| codec::encode(&r, &ins)));
@@ -218,11 +229,15 @@ fn main() {
                 match enc {
                     Ok(bytes) => {
                         let back = catch_unwind(AssertUnwindSafe(|| codec::decode(&r, &bytes)));
-                        let same = matches!(&back, Ok(Ok(b)) if *b == ins);
+                        let same = if ins.len() > 256 {
+                            matches!(&back, Ok(Err(_)))
+                        } else {
+                            matches!(&back, Ok(Ok(b)) if *b == ins)
+                        };
                         if !same {
                             panics += 1;
                         }
-                        if total <= 12 || !same {
+                        if (total <= 12 && ins.len() <= 256) || !same {
                             let shown_ins: Vec<Vec<u8>> = if total <= 4096 { ins.clone() } else { vec![] };
                             writeln!(out, "{}", json!({"k":"enc","ref": if total <= 4096 { r.clone() } else { vec![] },
                                 "inputs": shown_ins, "bytes": if total <= 4096 { bytes.clone() } else { vec![] },
